@@ -226,7 +226,7 @@ def write_obligations(tabs, info, kinds=('c01', 'c03', 'c05', 'c07', 'c08')):
 
 
 NEEDS_ENGINE = {'c01', 'c03', 'c05', 'c06', 'c04'}
-INST_IMPORTS = {'c06': ('c06', 'c01', 'c03', 'c07', 'c08'), 'c04': ('c01',)}
+INST_IMPORTS = {'c06': ('c06', 'c01', 'c03', 'c07', 'c08'), 'c04': ('c01',), 'c07h': ('c07', 'c08')}
 
 
 def write_instances(tabs, info, kinds):
@@ -238,7 +238,7 @@ def write_instances(tabs, info, kinds):
     clsA, clsB, tolA = set(frag['classA']), set(frag.get('classB', [])), set(frag.get('tolA', []))
     mods = []
     for kind in kinds:
-        fkey = KINDS[kind][0] if kind in KINDS else 'wrapC01'
+        fkey = KINDS[kind][0] if kind in KINDS else {'c07h': 'wrapC07'}.get(kind, 'wrapC01')
         deps = INST_IMPORTS.get(kind, (kind,))
         lines = ['import IRGen.Tables', 'import IRGen.Wrap', 'import IRModel.Props.Instances']
         if kind in NEEDS_ENGINE:
@@ -270,6 +270,8 @@ def write_instances(tabs, info, kinds):
                         lines.append('theorem C06_%s_%d : C06Holds IRGen.P_%s IRGen.W_%s ⟨%d, 1⟩ := C06_holds _ _ _ ⟨by decide, by decide⟩ %s c01w_%s c03w_%s c06w_%s c07w_%s c08w_%s' % (i, tol, i, i, tol, eng, i, i, i, i, i))
                     else:
                         lines.append('theorem %s_%s_%d : %s IRGen.P_%s IRGen.W_%s ⟨%d, 1⟩ := %s_holds _ _ _ ⟨by decide, by decide⟩ %s %sw_%s' % (kind.upper(), i, tol, H, i, i, tol, kind.upper(), eng, kind, i))
+            elif kind == 'c07h':
+                lines.append('theorem C07H_%s : C07HHolds IRGen.P_%s IRGen.W_%s := C07H_holds _ _ c07w_%s c08w_%s' % (i, i, i, i, i))
             else:
                 lines.append('theorem %s_%s : %s IRGen.P_%s IRGen.W_%s := %s_holds _ _ %sw_%s' % (kind.upper(), i, H, i, i, kind.upper(), kind, i))
         lines.append('end IRGen.Inst')
